@@ -64,7 +64,7 @@ def run(prog: Program, rep: Report, tier: str) -> None:
     rep.rule("R10.1", "record slicing: records are the 16-byte chunks of reply bytes 45..len-4; an empty reply yields an empty set without raising", 3)
     rep.rule("R10.2", "record getters and SwitcherSchedule wiring: id=decimal rec[0], recurring <=> rec[2] != 0, days=bit_summary_to_days(rec[2]) or {} , start/end = local HH:MM of LE32 rec[4:8]/rec[8:12], duration=calc_duration(start,end), display=pretty_next_run(start,days)", 14)
     rep.rule("R10.3", "schedule identity is the slot id: __hash__ and __eq__ depend on schedule_id only", 2)
-    rep.rule("R10.5", "nothing on the listing path is memoised (the local-time decoder depends on the host zone; parsed schedules must reflect the reply just read)", 3)
+    rep.rule("R10.5", "nothing on the listing path is memoised (the local-time decoder depends on the host zone; parsed schedules must reflect the reply just read)", 3, structural=True)
     rep.rule("R10.4", "writer/reader agreement: the record create_schedule emits has days/start/end at the offsets and widths the reader uses, the same byte order, mktime<->localtime (both local), '%H:%M' on both sides, and the non-recurring constant the reader tests against", 6)
     rep.trusted += [
         "textwrap.wrap on whitespace-free text yields consecutive chunks of the given width ('' -> [])",
@@ -154,7 +154,8 @@ def run(prog: Program, rep: Report, tier: str) -> None:
             b2 = st2.alloc(HeapObj("obj", sci, {"schedule_id": ("sym", "id_b", "str")}, [], True, "b", False))
             outs2 = I2.run(mf, {mf.params[0]: a, mf.params[1]: b2}, st2)
             vals = [o.value for o in outs2 if o.kind == "return"]
-            want_eq = ("cmp", "==", ("sym", "id_a", "str"), ("sym", "id_b", "str"))
+            from ..interp import mkcmp
+            want_eq = mkcmp("==", ("sym", "id_a", "str"), ("sym", "id_b", "str"))
             rep.check(len(vals) == 1 and canon(vals[0]) == canon(want_eq), "R10.3", meth, wherem, f"__eq__ between schedules is {[T.show(v)[:120] for v in vals]}; expected schedule_id == other.schedule_id", key="R10.3|eq")
     # R10.4
     wire = load_wire()
